@@ -132,8 +132,15 @@ func (g *gen) value(depth int) *V {
 		}
 		return h
 	case 14:
-		if g.r.Bool() {
+		switch g.r.Intn(3) {
+		case 0:
 			return g.ptrTaggableHeld()
+		case 1:
+			l := g.local()
+			if g.r.Bool() {
+				return &V{K: "ptr", Elem: l}
+			}
+			return l
 		}
 		return g.unexp()
 	default:
@@ -144,7 +151,22 @@ func (g *gen) value(depth int) *V {
 // slice of structs / pointers to structs / maps / taggable maps / taggable structs (homogeneous element type)
 func (g *gen) slice(depth int) *V {
 	var shape *V
-	switch g.r.Intn(7) {
+	switch g.r.Intn(11) {
+	case 7:
+		shape = &V{K: "ptr", Elem: g.tmap(depth - 1)} // []*TaggableMap
+	case 8:
+		t := g.tmap(0)
+		t.K = "ptmap"
+		shape = &V{K: "ptr", Elem: t} // pointer-receiver Taggable map behind a pointer
+	case 9:
+		m := g.mapv(depth - 1)
+		m.Iface = true
+		shape = &V{K: "ptr", Elem: m} // []*map[string]interface{}
+	case 10:
+		shape = g.local()
+		if g.r.Bool() {
+			shape = &V{K: "ptr", Elem: shape}
+		}
 	case 0, 1:
 		shape = g.strct(depth - 1)
 	case 2:
@@ -458,6 +480,24 @@ func (g *gen) ptrTaggableHeld() *V {
 	}
 }
 
+// one of the three same-named local struct types
+func (g *gen) local() *V {
+	strs := func(n int) *V {
+		v := &V{K: "strs"}
+		for ; n > 0; n-- {
+			v.Cs = append(v.Cs, g.can())
+		}
+		return v
+	}
+	switch g.r.Intn(3) {
+	case 0:
+		return &V{K: "hand", Hand: "LocalA", Fields: []Field{{Name: "Name", Tag: sp("public"), V: &V{K: "str", C: g.can()}}, {Name: "Token", Tag: sp("secret"), V: &V{K: "str", C: g.can()}}, {Name: "Note", Tag: sp("sensitive"), V: strs(2)}}}
+	case 1:
+		return &V{K: "hand", Hand: "LocalB", Fields: []Field{{Name: "Name", Tag: sp("secret"), V: &V{K: "str", C: g.can()}}, {Name: "Token", Tag: sp("public"), V: &V{K: "str", C: g.can()}}, {Name: "Note", Tag: sp("public"), V: strs(2)}}}
+	}
+	return &V{K: "hand", Hand: "LocalC", Fields: []Field{{Name: "Name", Tag: sp("sensitive,hmac-sha256"), V: &V{K: "str", C: g.can()}}, {Name: "Token", V: &V{K: "str", C: g.can()}}, {Name: "Extra", Tag: sp("public"), V: &V{K: "str", C: g.can()}}}}
+}
+
 func (g *gen) unexp() *V {
 	return &V{K: "hand", Hand: "UnexpA", Fields: []Field{
 		{Name: "hidden", V: &V{K: "int", I: int64(g.r.Intn(3))}}, // 0 now and then: nothing to lose
@@ -506,7 +546,11 @@ func (g *gen) payload(depth int) (string, *V) {
 	case 0, 1, 2, 3, 4, 5, 6:
 		return "val", &V{K: "ptr", Elem: g.strct(depth)}
 	case 7, 8:
-		return "val", g.slice(depth)
+		sl := g.slice(depth)
+		if g.r.Chance(1, 5) {
+			return "val", &V{K: "ptr", Elem: sl} // a pointer to the slice
+		}
+		return "val", sl
 	case 9:
 		v := &V{K: "strs"}
 		if g.r.Bool() {
@@ -532,6 +576,9 @@ func (g *gen) payload(depth int) (string, *V) {
 	case 17, 18:
 		return "val", &V{K: "ptr", Elem: g.hand(depth)}
 	case 19:
+		if g.r.Chance(2, 3) {
+			return "val", &V{K: "ptr", Elem: g.local()}
+		}
 		return "val", &V{K: "ptr", Elem: g.unexp()}
 	case 20:
 		return "val", g.ewi(depth)
